@@ -35,10 +35,10 @@ type Finding struct {
 
 type options struct {
 	repo, verif, tier, out string
-	seed              int64
-	timeout           int
-	par               int
-	verbose           bool
+	seed                   int64
+	timeout                int
+	par                    int
+	verbose                bool
 }
 
 func main() {
@@ -78,7 +78,7 @@ func main() {
 	switch args[0] {
 	case "check":
 		os.Exit(cmdCheck(o, args[1]))
-	case "func", "dump":
+	case "func", "dump", "gen":
 		os.Exit(cmdFunc(o, args[0], args[1:]))
 	case "list":
 		os.Exit(cmdList(o))
@@ -571,6 +571,14 @@ func reportDebug(o options, mode string, r *FuncResult, obre *regexp.Regexp) {
 		if obre == nil || obre.MatchString(ob.Name) {
 			obs = append(obs, ob)
 		}
+	}
+	if mode == "gen" {
+		cls := map[string]int{}
+		for _, ob := range obs {
+			cls[ob.Class]++
+		}
+		fmt.Printf("   %d obligations %v\n", len(obs), cls)
+		return
 	}
 	if mode == "dump" {
 		for _, ob := range obs {
